@@ -410,7 +410,7 @@ func c11Scenarios() []c11Scenario {
 		{"migration-from-daemonset", timed(scOpt{name: "C11-migration", nodes: n2, raw: true, eds: []w.EDSOpt{w.WithAnnotation(v1.ExtendedDaemonSetOldDaemonsetAnnotationKey, "old")},
 			extra: []client.Object{oldDS("ns", "old", map[string]string{"app": "old"}),
 				strayPod("ns", "old-n1", "n1", map[string]string{"app": "old"}, "old"), strayPod("ns", "old-n2", "n2", map[string]string{"app": "old"}, "old")}}), [][]w.Event{{}}},
-		{"node-removal", timed(scOpt{name: "C11-node-removal", nodes: []string{"n1", "n2", "n3"}}), [][]w.Event{{w.Event{K: "delNode", A: "n2"}}}},
+		{"node-removal", timed(scOpt{name: "C11-node-removal", nodes: []string{"n1", "n2", "n3"}}), [][]w.Event{{w.Event{K: "delNode", A: "n2"}}, {w.Event{K: "addNode", A: "n9"}}}},
 		{"settings-change", timed(scOpt{name: "C11-settings-change", nodes: n2, extra: []client.Object{set}}), [][]w.Event{{w.Event{K: "R_set", A: "ns/set1"}}}},
 	}
 }
